@@ -12,7 +12,7 @@ import numpy as np
 
 ID = "C14"
 SHARDS = {"quick": 8, "thorough": 16}
-BUDGET = {"quick": 50, "thorough": 480}
+BUDGET = {"quick": 300, "thorough": 1800}
 RULE = ("irregular series of 2..200 observations with integer-second stamps, gaps "
         "from {0, 1, 7, 60, 600, 1800, 3600, 5000, 9000, days}, stamps exactly on "
         "period boundaries, first stamp anywhere in its hour, values >= 0 / negative "
